@@ -329,6 +329,23 @@ pub fn run() -> Report {
                 world.extra.push(refmodel::world::Extra::Nested("blocks".into(), Box::new(old)));
                 acc.count("older-copy-of-the-directory-nested-as-blocks/", 1);
             }
+            // every fourth case: the node's UTXO database next to the block directory (`../chainstate`), as an older flush left
+            // it (the block index is flushed first; a crash before the chainstate flush leaves its best-block record behind):
+            // it names a competitor of this case that carries no failure flag - a once-active block that was reorganised out
+            // afterwards - or, without one, an older block of the active chain; half of them with value obfuscation
+            if _i % 4 == 2 {
+                let named = pending.iter().filter(|p| p.2 & (FAILED_VALID | FAILED_CHILD) == 0).map(|p| p.1.hash()).last().unwrap_or_else(|| chain.blocks[TIP as usize - 1].hash());
+                let key: Vec<u8> = if _i % 8 == 2 { vec![0x5a, 0x01, 0xfe, 0x33, 0x80, 0x7f, 0x10, 0xc4] } else { vec![0u8; 8] };
+                let mut kv: Vec<(Vec<u8>, Vec<u8>)> = Vec::new();
+                let mut okey = vec![0x0eu8, 0x00];
+                okey.extend_from_slice(b"obfuscate_key");
+                let mut oval = vec![0x08u8];
+                oval.extend_from_slice(&key);
+                kv.push((okey, oval));
+                kv.push((b"B".to_vec(), named.iter().zip(key.iter().cycle()).map(|(b, k)| b ^ k).collect()));
+                world.extra.push(refmodel::world::Extra::LevelDb("../chainstate".into(), kv));
+                acc.count("chainstate-of-an-older-flush-next-to-the-block-directory", 1);
+            }
             if c.pruned_below > 0 {
                 for (r, _) in recs.iter().take(chain.blocks.len()) {
                     if r.height < c.pruned_below {
